@@ -160,6 +160,25 @@ func c03Gen(c *core.Ctx) func(yield func(c03Case) bool) {
 		if !ok {
 			return
 		}
+		// func-shaped substitutes (closures implementing the interface): two closures of one literal
+		// are two versions although they share a code pointer
+		allGraphs(3, three, false, func(e [][]int) bool {
+			for node := 0; node < 3; node++ {
+				for plan := 1; plan < scen.NumWrapPlans; plan++ {
+					w := []int{0, 0, 0}
+					w[node] = plan
+					for _, base := range [][]int{{0, 1, 2}, {2, 1, 0}} {
+						if ok = yield(c03Case{scen.GraphProg{N: 3, Edges: e, Wrap: w, Base: base, WrapFunc: true, Family: "n3-funcwrap"}, 0}); !ok {
+							return false
+						}
+					}
+				}
+			}
+			return true
+		})
+		if !ok {
+			return
+		}
 		// lazy components on the graph (created only when an eager component needs them, or by the
 		// look-ups after the start), one substituted node at every timing
 		allGraphs(3, three, false, func(e [][]int) bool {
@@ -242,7 +261,7 @@ func c03Run(c *core.Ctx) {
 			cc := cs
 			cc.Choices = ch.Choices()
 			key := func(kind string) string {
-				return "C03/" + kind + "/" + core.Hash(p.N, p.Edges, p.Base, p.Wrap, p.Lazy, p.InitLookup, cc.Choices)
+				return "C03/" + kind + "/" + core.Hash(p.N, p.Edges, p.Base, p.Wrap, p.Lazy, p.InitLookup, p.WrapFunc, cc.Choices)
 			}
 			if !o.OK() {
 				return // failing is always allowed by C03 (panics / hangs are C09 / C02 matters)
@@ -359,6 +378,10 @@ func version(v any) string {
 		case *scen.W:
 			s += "W[" + x.Tag + "]:"
 			v = x.Inner
+			continue
+		case scen.WF:
+			s += fmt.Sprintf("WF[%s#%d]:", x.Tag(), x.Serial())
+			v = x(1)
 			continue
 		case *scen.N, *scen.NZ:
 			return s + "raw"
